@@ -240,7 +240,7 @@ def runRequest (s : State) (route : String) (i : Ident) (client : Scope) :
 
 def parsePolicy (cfg : String) : Option (Policy × Bool) :=
   match (cfg.splitOn ",").mapM (·.toNat?) with
-  | some [f4, f6, m4, m6, pf] => some ({ forwardV4 := f4, forwardV6 := f6, minScopeV4 := m4, minScopeV6 := m6 }, pf > 0)
+  | some [f4, f6, m4, m6, pf] => some (buildPolicy f4 f6 m4 m6, pf > 0)
   | _ => none
 
 def stepKey (w : List String) : String :=
@@ -322,14 +322,20 @@ def stepPipe (s : State) (w : List String) : State × String :=
     match idn.toNat? with
     | some id => if s.st.any (·.2.id == id) then ({ s with aged := id :: s.aged }, "ok") else (s, "no-such-entry")
     | none => (s, "bad-op")
-  | ["pipe", "drain", first] =>
+  | "pipe" :: "drain" :: first :: more =>
+    let rq : Option (Bytes × UInt16 × UInt16) :=
+      match more with
+      | [t] => if t.startsWith "rq=" then
+                 (parseIdent (t.drop 3).toString).bind fun i => i.name.presentation.map fun p => (p, i.qtype, i.qclass)
+               else none
+      | _ => none
     match first.toNat? with
     | some id0 =>
       let (st, _, parts) := s.queue.foldl (fun (acc : AStore × Nat × List String) (item : UInt64 × Entry × Req) =>
         let (st, id, parts) := acc
         let (key, e, trig) := item
         let asked := prefetchRequest trig
-        let (st', ok) := processPrefetch st key e trig id
+        let (st', ok) := processPrefetch st key e trig id rq
         (st', id + 1, parts ++ [s!"asked=p:{bytesHex asked.name},{asked.qtype.toNat},{asked.qclass.toNat},{boolStr asked.cd} id={id} r={boolStr ok}"]))
         (s.st, id0, [])
       ({ s with st := st, queue := [], claimed := [] }, if parts.isEmpty then "none" else ";".intercalate parts)
@@ -337,7 +343,16 @@ def stepPipe (s : State) (w : List String) : State × String :=
   | "pipe" :: "ask" :: route :: ids :: cl :: idn :: sb :: more =>
     match parseIdent ids, parseScope cl, idn.toNat? with
     | some i, some client, some id =>
-      let flip := more == ["flipcd"]
+      let flip := more.contains "flipcd"
+      let rq : Option (Bytes × UInt16 × UInt16) :=
+        (more.find? (·.startsWith "rq=")).bind fun t =>
+          (parseIdent (t.drop 3).toString).bind fun i => i.name.presentation.map fun p => (p, i.qtype, i.qclass)
+      let aliasT : Option Bytes :=
+        (more.find? (·.startsWith "alias=")).bind fun t =>
+          match parseName (t.drop 6).toString with
+          | some (Name.wire w) => some w
+          | _ => none
+      let noSubnet := (more.find? (·.startsWith "opt=")).any fun t => !(t.drop 4).toString.contains 'S' 
       match runRequest s route i client with
       | some (s', o, p, cs, _) =>
         match o with
@@ -345,7 +360,7 @@ def stepPipe (s : State) (w : List String) : State × String :=
           -- the miss reaches the upstream; `WriteMsg` admits its answer.  The ECS option of the
           -- response: SCOPE `bits`, ADDRESS the forwarded source unless the op names another one
           let echo : Option (Option Prefix) :=
-            if sb == "-" then some none else
+            if sb == "-" || noSubnet then some none else
             match sb.splitOn "@", cs with
             | [b], some src => b.toNat?.map fun n => some { src with bits := n }
             | [b, a], some _ =>
@@ -359,12 +374,23 @@ def stepPipe (s : State) (w : List String) : State × String :=
           | none => (s, "bad-op")
           | some echo =>
             let respCD := if flip then !i.cd else i.cd
+            -- `WriteMsg` files the answer under the question the RESPONSE carries
+            let (rn, rt, rc) := rq.getD (p, i.qtype, i.qclass)
             let sc := admitScope s.policy cs echo
-            let key := (CacheKey.mk p i.qtype i.qclass respCD sc).hash H
-            let st := admitAnswer H s.policy s.st id p i.qtype i.qclass respCD cs echo
-            let fs := if (normalizeKeyScope sc).isNone then resetQuestion H s.fs p i.qtype i.qclass respCD none else s.fs
-            let fs := resetMatching H fs p i.qtype i.qclass respCD cs
-            ({ s with st := st, fs := fs }, s!"ans {id} key={hex16 key} scope={fmtScope (normalizeKeyScope sc)}")
+            let key := (CacheKey.mk rn rt rc respCD sc).hash H
+            let st := (admitAnswer H s.policy s.st id rn rt rc respCD cs echo).map fun (k, e) =>
+              if e.id == id then (k, { e with alias := aliasT }) else (k, e)
+            let fs := if (normalizeKeyScope sc).isNone then resetQuestion H s.fs rn rt rc respCD none else s.fs
+            let fs := resetMatching H fs rn rt rc respCD cs
+            -- the reply to the asking client: the upstream's answer completed by `additionalAnswer`
+            -- (write-back chase, before the entry is stored: sub-queries see the cache as it was)
+            let fresh : Entry := { id := id, name := rn, qtype := rt, qclass := rc, cd := respCD,
+                                   scope := normalizeKeyScope sc, alias := aliasT }
+            let W := world s
+            let hasECS := client.isSome
+            let reply := additionalAnswer (fun t => msgReplyAt H W rt respCD hasECS (maxCnameChaseDepth - 1) t rc none) rn rt fresh
+            let rs := (showReply reply).replace " " "_"
+            ({ s with st := st, fs := fs }, s!"ans {id} key={hex16 key} scope={fmtScope (normalizeKeyScope sc)} reply={rs}")
         | _ => (s', showReply o)
       | none => (s, "bad-op")
     | _, _, _ => (s, "bad-op")
